@@ -4,27 +4,28 @@
 set -u
 P=$1; X=$2; TIER=${3:-quick}
 WT=/tmp/seed-$P; SRC=/tmp/seed-out/$P/$X
+if [ "${ROUND:-1}" = "2" ]; then WT=/tmp/seed2-$P; SRC=/tmp/seed-out/$P-r2/$X; fi
 export GOFLAGS=-mod=mod GOPROXY=off GOSUMDB=off GOTOOLCHAIN=local
 cd $WT || exit 2
 git checkout -q -- . ; git clean -fdq
 git checkout -q --detach $(git -C /repo rev-parse HEAD)
 echo "== demo WITHOUT patch (expect pass)"
-( bash $SRC/demo/run.sh >/tmp/seed-out/$P/$X/demo-without.log 2>&1 ); W0=$?
+( bash $SRC/demo/run.sh >$SRC/demo-without.log 2>&1 ); W0=$?
 git checkout -q -- . ; git clean -fdq
 if ! git apply --check $SRC/patch.diff 2>/dev/null; then echo "PATCH DOES NOT APPLY to current HEAD"; exit 3; fi
 git apply $SRC/patch.diff
 echo "== build + tests WITH patch"
 go build ./pkg/procbuilder/ ./pkg/bondmachine/ ./pkg/basm/ ./pkg/bmnumbers/ ./pkg/bmstack/ ./pkg/bmqsim/ ./pkg/bmmatrix/ ./pkg/simbox/ ./pkg/bondgo/ ./cmd/basm ./cmd/bondgo ./cmd/bondmachine ./cmd/procbuilder ./cmd/bmqsim ./cmd/neuralbond ./cmd/simbox; B=$?
-go test -vet=off -count=1 ./pkg/basm ./pkg/bcof ./pkg/bmline ./pkg/bmnumbers ./pkg/bmreqs ./pkg/bmserialize ./pkg/bmstack ./pkg/bondgo ./pkg/bondirect ./pkg/bondmachine ./pkg/procbuilder ./pkg/simbox 2>&1 | grep -E "^(--- FAIL|FAIL|ok)" | grep -v "^ok" > /tmp/seed-out/$P/$X/tests-with.log
-cat /tmp/seed-out/$P/$X/tests-with.log
+go test -vet=off -count=1 ./pkg/basm ./pkg/bcof ./pkg/bmline ./pkg/bmnumbers ./pkg/bmreqs ./pkg/bmserialize ./pkg/bmstack ./pkg/bondgo ./pkg/bondirect ./pkg/bondmachine ./pkg/procbuilder ./pkg/simbox 2>&1 | grep -E "^(--- FAIL|FAIL|ok)" | grep -v "^ok" > $SRC/tests-with.log
+cat $SRC/tests-with.log
 echo "== demo WITH patch (expect fail)"
-( bash $SRC/demo/run.sh >/tmp/seed-out/$P/$X/demo-with.log 2>&1 ); W1=$?
+( bash $SRC/demo/run.sh >$SRC/demo-with.log 2>&1 ); W1=$?
 git status --short | grep -v "^ M" | head -3
 # demos may leave files behind: remove untracked but keep the patch
 git clean -fdq
 echo "== check $P $TIER against the patched tree"
-( cd /verif && VERIF_REPO=$WT bin/check $P $TIER > /tmp/seed-out/$P/$X/check.log 2>&1 ); C=$?
-grep -E "^(VIOLATION|FAILURE|OK|INCONCLUSIVE|BUILD|KNOWN)" /tmp/seed-out/$P/$X/check.log | cut -c1-220 | head -6
+( cd /verif && VERIF_REPO=$WT bin/check $P $TIER > $SRC/check.log 2>&1 ); C=$?
+grep -E "^(VIOLATION|FAILURE|OK|INCONCLUSIVE|BUILD|KNOWN)" $SRC/check.log | cut -c1-220 | head -6
 rm -rf /verif/replays/$P/found
 git checkout -q -- . ; git clean -fdq
 echo "RESULT prop=$P patch=$X build=$B demo_without=$W0 demo_with=$W1 check_exit=$C"
